@@ -180,7 +180,69 @@ class FnIntervals:
                 p = fn.parent.get(n['i'])
                 if p is not None and p['k'] in ('CallExpr', 'CXXMemberCallExpr', 'CXXConstructExpr') and n.get('lv'):
                     tr.pop(n['d'], None)
+        # scalar integer members of `this` (and its bases) are tracked as pseudo-variables 'M:<name>';
+        # they are killed at every call that can run code of the same class hierarchy
+        cls = fn.j.get('cls')
+        self.hier = set()
+        if cls:
+            stack = [cls]
+            while stack:
+                c = stack.pop()
+                if c in self.hier:
+                    continue
+                self.hier.add(c)
+                r = self.prog.records.get(c)
+                if r:
+                    for f in r['fields']:
+                        t = r['types'][f['t']]
+                        if type_range(t) != TOP and 'bound' not in f:
+                            tr.setdefault('M:' + f['n'], t)
+                    stack.extend(b for b in r.get('bases', ()))
+            for n in fn.nodes.values():
+                if n['k'] == 'UnaryOperator' and n.get('op') == '&':
+                    t = strip(kids(n)[0])
+                    if t['k'] == 'MemberExpr':
+                        tr.pop('M:' + t['n'], None)
+                elif n['k'] == 'MemberExpr' and n.get('lv') and ('M:' + n['n']) in tr:
+                    p = fn.parent.get(n['i'])
+                    if p is not None and p['k'] in ('CallExpr', 'CXXMemberCallExpr', 'CXXConstructExpr'):
+                        tr.pop('M:' + n['n'], None)
         return tr
+
+    def _vid(self, n):
+        """Identifier of a tracked scalar l-value (local/param decl id or 'M:<field>' of this), else None."""
+        while n is not None and n['k'] in ('ParenExpr',):
+            n = kids(n)[0]
+        if n is None:
+            return None
+        if n['k'] == 'DeclRefExpr':
+            return n.get('d') if n.get('d') in self.tracked else None
+        if n['k'] == 'MemberExpr' and not n.get('method'):
+            c = kids(n)
+            if c and strip(c[0])['k'] == 'CXXThisExpr':
+                key = 'M:' + n['n']
+                if key in self.tracked:
+                    return key
+        return None
+
+    def _call_kills_members(self, n):
+        if not self.hier:
+            return False
+        k = n['k']
+        if k == 'CXXMemberCallExpr':
+            me = strip(kids(n)[0])
+            rec = me.get('rec')
+            obj = strip(kids(me)[0]) if kids(me) else None
+            if obj is not None and obj['k'] == 'CXXThisExpr':
+                return True
+            return rec in self.hier
+        if k in ('CallExpr', 'CXXConstructExpr'):
+            for a in kids(n)[1:] if k == 'CallExpr' else kids(n):
+                if a is not None and strip(a, casts=True)['k'] == 'CXXThisExpr':
+                    return True
+            if n.get('indirect'):
+                return True
+        return False
 
     # ---- evaluation
     def var(self, st, d):
@@ -259,6 +321,9 @@ class FnIntervals:
                     return meet(r, type_range(t)) if type_range(t) != TOP else r
             return type_range(t)
         if k == 'MemberExpr':
+            vid = self._vid(n)
+            if vid is not None:
+                return self.var(st, vid)
             if c:
                 base = strip(c[0])
                 if base['k'] == 'ArraySubscriptExpr':
@@ -397,6 +462,11 @@ class FnIntervals:
                 else:
                     ok = False
             elif k == 'MemberExpr':
+                vid = self._vid(n)
+                if vid is not None:
+                    vars_.add(vid)
+                    parts.append('m' + n['n'])
+                    continue
                 if n.get('arrow'):
                     ok = False
                 parts.append('.' + n['n'])
@@ -418,6 +488,72 @@ class FnIntervals:
         cache[c['i']] = r
         return r
 
+    PURE_CALLS = ('printf', 'fprintf', 'snprintf', 'sprintf', 'strcmp', 'strcasecmp', 'strncmp', 'strlen', 'putc',
+                  'fputc', 'puts', 'fputs', 'memcmp', 'abs')
+
+    def expr_key(self, n):
+        """(key, deps) of a call-free expression reading locals / members / array elements; None otherwise.
+        deps: decl ids, 'F:<field>', 'A' (some array element), '*mem*' (reads memory that a call may change)."""
+        cache = self.__dict__.setdefault('_ek', {})
+        if n['i'] in cache:
+            return cache[n['i']]
+        parts, deps, ok = [], set(), True
+        st = [n]
+        while st and ok:
+            x = st.pop()
+            k = x['k']
+            if k in ('CallExpr', 'CXXMemberCallExpr', 'CXXOperatorCallExpr', 'CompoundAssignOperator', 'CXXConstructExpr',
+                     'ConditionalOperator'):
+                ok = False
+            elif k == 'UnaryOperator' and x.get('op') in ('++', '--', '&'):
+                ok = False
+            elif k == 'UnaryOperator' and x.get('op') == '*':
+                deps.add('*mem*')
+                deps.add('A')
+                parts.append('*')
+            elif k == 'BinaryOperator' and x.get('op') in ('=', ','):
+                ok = False
+            elif k == 'DeclRefExpr':
+                dk = x.get('dk')
+                if dk in ('local', 'param', 'slocal', 'global'):
+                    deps.add(x.get('d') if dk != 'global' else 'G:' + x['n'])
+                    if dk == 'global':
+                        deps.add('*mem*')
+                    parts.append('v%s' % x.get('d'))
+                elif dk == 'enum':
+                    parts.append('e%d' % x['v'])
+                else:
+                    ok = False
+            elif k == 'MemberExpr':
+                if x.get('method'):
+                    ok = False
+                deps.add('F:' + x['n'])
+                deps.add('*mem*')
+                parts.append('.' + x['n'])
+            elif k == 'ArraySubscriptExpr':
+                deps.add('A')
+                deps.add('*mem*')
+                parts.append('[]')
+            elif k == 'CXXThisExpr':
+                parts.append('this')
+            elif k in ('IntegerLiteral', 'CharacterLiteral', 'CXXBoolLiteralExpr'):
+                parts.append('#%s' % x.get('v'))
+            elif k in ('BinaryOperator', 'UnaryOperator'):
+                parts.append(x.get('op', '?'))
+            elif k in ('ImplicitCastExpr', 'ParenExpr', 'CStyleCastExpr', 'ConstantExpr', 'CXXStaticCastExpr'):
+                pass
+            else:
+                ok = False
+            st.extend(reversed(kids(x)))
+        r = (' '.join(parts), frozenset(deps)) if ok and deps else None
+        cache[n['i']] = r
+        return r
+
+    def _kill_deps(self, st, pred):
+        dead = [k for k, v in st.items() if isinstance(k, tuple) and k[0] == 'NZE' and any(pred(x) for x in v[1])]
+        for k in dead:
+            del st[k]
+
     def _kill_facts(self, st, d):
         dead = [k for k, v in st.items() if isinstance(k, tuple) and d in v[1]]
         for k in dead:
@@ -435,21 +571,45 @@ class FnIntervals:
 
     def step(self, n, st):
         k = n['k']
+        if k in ('CallExpr', 'CXXMemberCallExpr', 'CXXConstructExpr', 'CXXOperatorCallExpr'):
+            if (n.get('callee') or '') not in self.PURE_CALLS:
+                self._kill_deps(st, lambda x: x == '*mem*')
+        if k in ('BinaryOperator', 'CompoundAssignOperator', 'UnaryOperator') and (
+                n.get('op') in ('++', '--') or (n.get('op', '').endswith('=') and n['op'] not in ('==', '!=', '<=', '>='))):
+            tgt = strip(kids(n)[0])
+            if tgt['k'] == 'DeclRefExpr':
+                dd = tgt.get('d')
+                self._kill_deps(st, lambda x: x == dd or x == 'G:' + tgt.get('n', ''))
+            elif tgt['k'] == 'MemberExpr':
+                fname = 'F:' + tgt['n']
+                self._kill_deps(st, lambda x: x == fname)
+            else:
+                self._kill_deps(st, lambda x: x in ('A', ) or (isinstance(x, str) and x.startswith('F:')))
+        if k in ('CallExpr', 'CXXMemberCallExpr', 'CXXConstructExpr') and self._call_kills_members(n):
+            for d in [d for d in st if isinstance(d, str) and d.startswith('M:')]:
+                del st[d]
+            dead = [kk for kk, v in st.items() if isinstance(kk, tuple) and any(isinstance(x, str) for x in v[1])]
+            for kk in dead:
+                del st[kk]
+            return
         if k in ('BinaryOperator', 'CompoundAssignOperator', 'UnaryOperator') and (
                 n.get('op') in ('++', '--') or (n.get('op', '').endswith('=') and n['op'] not in ('==', '!=', '<=', '>='))):
             l0 = strip(kids(n)[0])
-            if l0['k'] == 'DeclRefExpr':
+            vid0 = self._vid(l0)
+            if vid0 is not None:
+                self._kill_facts(st, vid0)
+            elif l0['k'] == 'DeclRefExpr':
                 self._kill_facts(st, l0.get('d'))
         if k in ('BinaryOperator', 'CompoundAssignOperator') and n.get('op', '').endswith('=') and \
                 n['op'] not in ('==', '!=', '<=', '>='):
-            l = strip(kids(n)[0])
-            if l['k'] == 'DeclRefExpr' and l.get('d') in self.tracked:
-                self._assign(st, l['d'], self.eval(n, st))
+            vid = self._vid(strip(kids(n)[0]))
+            if vid is not None:
+                self._assign(st, vid, self.eval(n, st))
         elif k == 'UnaryOperator' and n.get('op') in ('++', '--'):
-            l = strip(kids(n)[0])
-            if l['k'] == 'DeclRefExpr' and l.get('d') in self.tracked:
-                v0 = self.var(st, l['d'])
-                self._assign(st, l['d'], add(v0, (1, 1) if n['op'] == '++' else (-1, -1)))
+            vid = self._vid(strip(kids(n)[0]))
+            if vid is not None:
+                v0 = self.var(st, vid)
+                self._assign(st, vid, add(v0, (1, 1) if n['op'] == '++' else (-1, -1)))
         elif k == 'DeclStmt':
             inits = list(kids(n))
             ds = [d for d in n.get('decls', ()) if d.get('init')]
@@ -472,10 +632,20 @@ class FnIntervals:
             st2 = dict(st)
             for lhs, rhs, o in ((a, b, op), (b, a, {'<': '>', '<=': '>=', '>': '<', '>=': '<=', '==': '==', '!=': '!='}[op])):
                 l = strip(lhs, casts=False)
-                # look through integral casts that cannot change the value of a tracked var is unsafe in
-                # general; only plain references are refined
-                if l['k'] == 'DeclRefExpr' and l.get('d') in self.tracked:
-                    cur = self.var(st2, l['d'])
+                vid = self._vid(l)
+                if vid is None and l['k'] == 'ImplicitCastExpr':
+                    # integral promotions / conversions of a tracked variable whose range fits the wider type
+                    x = l
+                    while x['k'] == 'ImplicitCastExpr' and x.get('ck') in ('IntegralCast', 'LValueToRValue', 'NoOp') and kids(x):
+                        x = kids(x)[0]
+                    v2 = self._vid(x)
+                    if v2 is not None:
+                        cur2 = self.var(st2, v2)
+                        tr = type_range(self.fn.type(l))
+                        if tr != TOP and cur2[0] is not None and cur2[1] is not None and cur2[0] >= tr[0] and cur2[1] <= tr[1]:
+                            vid = v2
+                if vid is not None:
+                    cur = self.var(st2, vid)
                     rv = self.eval(rhs, st)
                     new = cur
                     if o == '<' and rv[1] is not None:
@@ -493,23 +663,63 @@ class FnIntervals:
                             new = (cur[0] + 1, cur[1])
                         elif cur[1] == rv[0]:
                             new = (cur[0], cur[1] - 1)
+                        elif rv[0] == 0:
+                            st2[('NZ', vid)] = (True, frozenset([vid]))
                     if is_empty(new):
                         return None
                     if new != cur:
-                        st2[l['d']] = new
+                        st2[vid] = new
+                elif o == '!=' and const(rhs) == 0:
+                    ek = self.expr_key(l)
+                    if ek:
+                        st2[('NZE', ek[0])] = (True, ek[1])
             return st2
-        if k == 'DeclRefExpr' and c.get('d') in self.tracked:
-            cur = self.var(st, c['d'])
+        vid = self._vid(strip(c, casts=False))
+        if vid is None:
+            x = c
+            while x['k'] == 'ImplicitCastExpr' and kids(x):
+                x = kids(x)[0]
+            vid = self._vid(x)
+        if vid is not None:
+            cur = self.var(st, vid)
             if not truth:
                 new = meet(cur, (0, 0))
                 if is_empty(new):
                     return None
                 st2 = dict(st)
-                st2[c['d']] = new
+                st2[vid] = new
                 return st2
             if cur == (0, 0):
                 return None
+            st2 = dict(st)
+            if cur[0] == 0:
+                st2[vid] = (1, cur[1])
+            elif cur[1] == 0:
+                st2[vid] = (cur[0], -1)
+            else:
+                st2[('NZ', vid)] = (True, frozenset([vid]))
+            return st2
+        if truth and k not in ('BinaryOperator',):
+            ek = self.expr_key(c)
+            if ek:
+                st2 = dict(st)
+                st2[('NZE', ek[0])] = (True, ek[1])
+                return st2
         return st
+
+    def nonzero(self, expr, st):
+        """Is the value of expr provably non-zero in state st?"""
+        v = self.eval(expr, st)
+        if (v[0] is not None and v[0] >= 1) or (v[1] is not None and v[1] <= -1):
+            return True
+        x = expr
+        while x is not None and x['k'] in ('ImplicitCastExpr', 'ParenExpr') and kids(x):
+            x = kids(x)[0]
+        vid = self._vid(x) if x is not None else None
+        if vid is not None and ('NZ', vid) in st:
+            return True
+        ek = self.expr_key(x) if x is not None else None
+        return bool(ek and ('NZE', ek[0]) in st)
 
     def _solve(self):
         fn = self.fn
@@ -551,7 +761,7 @@ class FnIntervals:
         multi = {k for k, c in cnt.items() if c >= 2}
 
         def pkey(st):
-            return frozenset((k, v[0]) for k, v in st.items() if isinstance(k, tuple))
+            return frozenset((k, v[0]) for k, v in st.items() if isinstance(k, tuple) and k[0] == 'F')
 
         # inn[block] = {partition key: state}; partitions are distinguished by the set of known condition
         # facts (bounded trace partitioning); more than CAP partitions collapse into one joined state
